@@ -241,6 +241,19 @@ type GunPlan struct {
 	FaultUs      int   `json:"fault_delay_us"`
 	// PanicKind: what the panicking shot panics with: "" *InjectedError | string | int | struct | bytes | runtime
 	PanicKind string `json:"panic_kind,omitempty"`
+	// Plain (non-fault) slowness of steps that do not look at any context: the factory call number FactoryDelayAt
+	// (-1 = every call) sleeps FactoryDelayUs before it does anything else, every WarmUp sleeps WarmUpDelayUs.
+	// Zero = no delay. The sleeps are recorded as StepSpans.
+	FactoryDelayUs int `json:"factory_delay_us,omitempty"`
+	FactoryDelayAt int `json:"factory_delay_at,omitempty"`
+	WarmUpDelayUs  int `json:"warmup_delay_us,omitempty"`
+}
+
+// StepSpan is one plain delay a double spent inside a step that ignores contexts.
+type StepSpan struct {
+	Kind       string // factory | warmup
+	Call       int
+	Start, End time.Time
 }
 
 type ShotRec struct {
@@ -265,6 +278,34 @@ type GunWorld struct {
 	Overlaps     int
 	FaultReached map[string]bool
 	WarmUps      int
+	spans        []StepSpan
+}
+
+// slowStep sleeps us microseconds (nothing if us <= 0) and records the span.
+func (w *GunWorld) slowStep(kind string, call, us int) {
+	if us <= 0 {
+		return
+	}
+	sp := StepSpan{Kind: kind, Call: call, Start: time.Now()}
+	sleepUs(us)
+	sp.End = time.Now()
+	w.mu.Lock()
+	w.spans = append(w.spans, sp)
+	w.mu.Unlock()
+}
+
+// StepSpans returns the plain delays spent so far (finished ones only).
+func (w *GunWorld) StepSpans() []StepSpan {
+	w.mu.Lock()
+	defer w.mu.Unlock()
+	return append([]StepSpan(nil), w.spans...)
+}
+
+// ShotCount returns the number of finished shots.
+func (w *GunWorld) ShotCount() int {
+	w.mu.Lock()
+	defer w.mu.Unlock()
+	return len(w.Shots)
 }
 
 func NewGunWorld(p GunPlan) *GunWorld {
@@ -318,8 +359,10 @@ func (g warmCloserGun) Close() error                                { return clo
 func (g *Gun) warmUp() (interface{}, error) {
 	g.w.mu.Lock()
 	g.w.WarmUps++
+	n := g.w.WarmUps - 1
 	g.w.mu.Unlock()
 	g.IsWarmUp = true
+	g.w.slowStep("warmup", n, g.w.Plan.WarmUpDelayUs)
 	if g.w.Plan.WarmUpErr {
 		sleepUs(g.w.Plan.FaultUs)
 		g.w.reach("warmup")
@@ -331,6 +374,9 @@ func (g *Gun) warmUp() (interface{}, error) {
 // Factory is the NewGun function handed to the pool.
 func (w *GunWorld) Factory() (core.Gun, error) {
 	n := int(w.factoryCalls.Add(1)) - 1
+	if w.Plan.FactoryDelayAt < 0 || n == w.Plan.FactoryDelayAt {
+		w.slowStep("factory", n, w.Plan.FactoryDelayUs)
+	}
 	if w.Plan.FactoryErrAt >= 0 && n == w.Plan.FactoryErrAt {
 		sleepUs(w.Plan.FaultUs)
 		w.reach("factory")
